@@ -114,6 +114,9 @@ def inputs(variant, seed):
     """evaluation points and conditioning values: variant 0 canonical, others seeded random"""
     if variant == 0:
         return XV, PV, GIVEN_VEC, GIVEN_SCA, X_SCA, P_SCA
+    if variant == -1:   # integer-typed conditioning values (python int, numpy integer scalar, int64 vector)
+        return (XV, PV, (np.array([1, 2, 3, 2, 1], dtype=np.int64), np.array([3, 1, 2, 2, 3], dtype=np.int64)),
+                (2, np.int64(3)), X_SCA, P_SCA)
     rng = np.random.default_rng(1000 * seed + variant)
     r = lambda lo, hi, n: [float(f"{v:.6g}") for v in rng.uniform(lo, hi, n)]
     gv = (r(0.5, 3.0, 5), r(0.5, 3.0, 5))
@@ -145,7 +148,8 @@ def cond_record(vc, rid, case, seed=0, variant=0):
                 else:
                     vals, sca = (PV, P_SCA) if method == "icdf" else (XV, X_SCA)
                     x = np.array(vals) if xvec else sca[call]
-                gl = list(GIVEN_VEC[call]) if gvec else [GIVEN_SCA[call]]
+                gl = [v.item() if hasattr(v, "item") else v
+                      for v in (list(GIVEN_VEC[call]) if gvec else [GIVEN_SCA[call]])]
                 refpar = [{n: (ref_value(specs[n], gi) if n in Dn else Fx[n]) for n in names} for gi in gl]
                 # dependence function objects at the given(s)
                 for n in Dn:
@@ -156,7 +160,7 @@ def cond_record(vc, rid, case, seed=0, variant=0):
                 # fixed parameters
                 pv = cond._get_param_values(g) if hasattr(cond, "_get_param_values") else dict(cond.fixed_parameters)
                 for n in fixedn:
-                    if not (np.ndim(pv[n]) == 0 and pv[n] == Fx[n] and cond.fixed_parameters[n] == Fx[n]):
+                    if not (np.all(np.asarray(pv[n]) == Fx[n]) and cond.fixed_parameters[n] == Fx[n]):
                         rec["fixedok"] = False
                 if method == "draw_sample":
                     res = cond.draw_sample(x, g, random_state=rs)
@@ -214,16 +218,118 @@ def cond_record(vc, rid, case, seed=0, variant=0):
     return rec
 
 
+HIST_FAMS = ["ExpWeibull", "Weibull", "LogNormal", "Normal", "GenGamma", "VonMises", "NormFit",
+             "ScipyGamma", "ScipyRayleigh", "ScipyBeta"]
+
+
+def condhist_record(vc, rid, hcase, index):
+    """One TLC history of ParamRoutingMemo on a real ConditionalDistribution whose first dependent
+    parameter has a chained dependence function of the given depth.  E<g>: evaluate cdf/pdf/icdf
+    at conditioning value g (nothing else is evaluated in between); S<k>: assign new coefficients
+    to the function of level k; F: fit the innermost function to new data.  After every E the
+    result must be the fresh template at the CURRENT dependence values."""
+    depth, steps = int(hcase["depth"]), list(hcase["steps"])
+    fam = HIST_FAMS[index % len(HIST_FAMS)]
+    names = D.NAMES[fam]
+    Dn = list(names) if (index // len(HIST_FAMS)) % 2 == 0 else [names[0]]
+    fixedn = [n for n in names if n not in Dn]
+    Fx = D.fixed_values(fam)
+    mode = (index // 3) % 3          # conditioning value: float scalar / float vector / integer vector
+    gtab = {0: {"E1": 1.7, "E2": 2.9},
+            1: {"E1": np.array([0.6, 1.3, 2.2]), "E2": np.array([2.9, 0.6, 1.3])},
+            2: {"E1": np.array([1, 2, 3], dtype=np.int64), "E2": np.array([3, 1, 2], dtype=np.int64)}}[mode]
+    rec = dict(id=rid, kind="condhist", depth=depth, steps=steps, fam=fam, D=Dn, gmode=mode, exc="",
+               tplrel=0, parrel=0, nev=0, badstep="")
+    worst = dict(tpl=0.0, par=0.0)
+    with warnings.catch_warnings(), np.errstate(all="ignore"):
+        warnings.simplefilter("ignore")
+        try:
+            DF = vc.DependenceFunction
+            first = Dn[0]
+            S = D.STORED[fam]
+            lev = {}
+            innermost = DF(_lin)
+            innermost.parameters = {"a": 0.7, "b": 0.11}
+            if depth == 1:
+                lev[2] = innermost
+            else:
+                lev[3] = innermost
+                lev[2] = DF(_mid, inner=innermost)
+                lev[2].parameters = {"a": 0.6, "b": 0.3}
+            lev[1] = DF(_chain, inner=lev[2])
+            lev[1].parameters = {"a": S[first], "b": round(0.02 * S[first], 9)}
+            deps = {first: lev[1]}
+            others = {}
+            for n in Dn[1:]:
+                f = DF(_lin)
+                f.parameters = {"a": S[n], "b": round(0.01 * (names.index(n) + 2) * S[n], 9)}
+                deps[n] = f
+                others[n] = ("lin", f.parameters["a"], f.parameters["b"])
+            tmpl = D.build(vc, fam, {}, fixed={n: Fx[n] for n in fixedn})
+            cond = vc.distributions.ConditionalDistribution(tmpl, deps)
+
+            def spec_first():
+                c = {k: (float(v.parameters["a"]), float(v.parameters["b"])) for k, v in lev.items()}
+                inner = ("lin",) + c[depth + 1]
+                if depth == 2:
+                    inner = ("mid",) + c[2] + (inner,)
+                return ("chain",) + c[1] + (inner,)
+
+            nset = 0
+            for si, st in enumerate(steps):
+                if st[0] == "S":
+                    nset += 1
+                    f = lev[int(st[1])]
+                    f.parameters = {k: float(f"{float(v) * (1 + 0.13 * nset):.9g}") for k, v in f.parameters.items()}
+                    continue
+                if st == "F":
+                    nset += 1
+                    xs = np.array([0.5, 1.0, 2.0, 3.0, 4.0])
+                    innermost.fit(xs, (0.7 + 0.05 * nset) + (0.11 + 0.02 * nset) * xs)
+                    continue
+                g = gtab[st]
+                gl = [v.item() for v in g] if np.ndim(g) else [g]
+                spec1 = spec_first()
+                for meth in ("cdf", "pdf", "icdf"):
+                    xv = (PV if meth == "icdf" else XV)[:len(gl)]
+                    x = np.array(xv) if np.ndim(g) else xv[0]
+                    res = np.asarray(getattr(cond, meth)(x, g), dtype=float).reshape(-1)
+                    for i, gi in enumerate(gl):
+                        par = {n: (ref_value(spec1 if n == first else others[n], gi) if n in Dn else Fx[n])
+                               for n in names}
+                        tv = getattr(D.build(vc, fam, par), meth)(xv[i])
+                        _, shp, rel = D.compare(res[i] if res.size == len(gl) else np.nan, tv)
+                        rel = rel if shp else float("inf")
+                        if rel > 1e-13 and not rec["badstep"]:
+                            rec["badstep"] = f"{si + 1}:{st}"
+                        worst["tpl"] = max(worst["tpl"], rel)
+                    rec["nev"] += 1
+                got = lev[1](g)
+                want = [ref_value(spec1, gi) for gi in gl] if np.ndim(g) else ref_value(spec1, gl[0])
+                _, shp, rel = D.compare(got, want)
+                worst["par"] = max(worst["par"], rel if shp else float("inf"))
+        except Exception as e:  # noqa
+            rec["exc"] = f"{type(e).__name__}: {e}"[:200]
+    rec.update(tplrel=Qc(worst["tpl"], 1e15, 0, BIG), parrel=Qc(worst["par"], 1e15, 0, BIG))
+    return rec
+
+
+def hist_key(h, i):
+    return (f"history depth={h['depth']} steps={'-'.join(h['steps'])} "
+            f"template={HIST_FAMS[i % len(HIST_FAMS)]} gmode={(i // 3) % 3}")
+
+
 def key_of(c):
     return f"{c['fam']} {c['method']} dependent={'+'.join(c['D'])} chain={c['chain']} shape={c['shape']}"
 
 
-def judge(ctx, vc, cases, summary=True, reps=1):
-    cases = [dict(c, variant=c.get("variant", v)) for v in range(reps) for c in cases]
+def judge(ctx, vc, cases, summary=True, variants=(0,), hists=()):
+    cases = [dict(c, variant=c.get("variant", v)) for v in variants for c in cases]
     recs = [cond_record(vc, i + 1, c, ctx.seed, c["variant"]) for i, c in enumerate(cases)]
-    allrecs = list(recs)
+    hrecs = [condhist_record(vc, len(recs) + i + 1, h, i) for i, h in enumerate(hists)]
+    allrecs = recs + hrecs
     if summary:
-        allrecs.append(dict(id=len(recs) + 1, kind="summary", reps=reps))
+        allrecs.append(dict(id=len(allrecs) + 1, kind="summary", reps=len(variants)))
     failing = ctx.validate("Trace_C08", "Trace_C08.cfg", allrecs)
     for c, r in zip(cases, recs):
         ctx.case(f"cond {key_of(c)} v{c['variant']}", nontrivial=r["exc"] == "" and r["effective"])
@@ -231,16 +337,30 @@ def judge(ctx, vc, cases, summary=True, reps=1):
             ctx.violation(clause, key_of(c),
                           f"exc={r['exc']!r} tplrel={r['tplrel']}e-15 vecrel={r['vecrel']}e-15 "
                           f"parrel={r['parrel']}e-15 shapeok={r['shapeok']} fixedok={r['fixedok']}", replay=c)
+    for i, (h, r) in enumerate(zip(hists, hrecs)):
+        ctx.case(hist_key(h, i), nontrivial=r["exc"] == "" and any(st[0] in "SF" for st in h["steps"]))
+        for clause in failing.get(r["id"], []):
+            ctx.violation(clause, hist_key(h, i),
+                          f"exc={r['exc']!r} tplrel={r['tplrel']}e-15 parrel={r['parrel']}e-15 "
+                          f"first stale step {r['badstep']}", replay=dict(kind="condhist", case=h, index=i))
     if summary and failing.get(allrecs[-1]["id"]):
-        raise Machinery("coverage clause CondCoverage rejected: the executed cases are not the enumerated product")
-    ctx.log(f"{len(recs)} conditional executions judged, {sum(1 for r in recs if r['id'] in failing)} rejected")
+        raise Machinery(f"coverage clauses rejected: {failing[allrecs[-1]['id']]}")
+    ctx.log(f"{len(recs)} conditional executions, {len(hrecs)} chained-function histories judged, "
+            f"{sum(1 for r in allrecs if r['id'] in failing)} rejected")
     return cases, recs, failing
 
 
-def selftest(ctx, rec):
+def selftest(ctx, rec, hrec=None):
     import copy
 
     muts = []
+    if hrec is not None:
+        for clause, chg in (("CondEqualsTemplateAtValues", dict(tplrel=10 ** 8)), ("ChainedSameGiven", dict(parrel=10 ** 8)),
+                            ("Compared", dict(nev=0))):
+            r = copy.deepcopy(hrec)
+            r.update(chg)
+            r["id"] = 900000 + len(muts)
+            muts.append((r, clause))
     for clause, chg in (("CondEqualsTemplateAtValues", dict(tplrel=5000)),
                         ("VectorisedEqualsPointwise", dict(vecrel=5000)),
                         ("ChainedSameGiven", dict(parrel=10 ** 9)),
@@ -266,7 +386,11 @@ def run(ctx):
     ctx.rule = ("TLC enumerates every (family as template, non-empty dependent subset D of its parameter names "
                 "[the others fixed], chain kind plain/defaults/chain1/chain2, call shape x scalar|vector x given "
                 "scalar|vector, method pdf/cdf/icdf/draw_sample); each is instantiated on the real classes and "
-                "called twice with different conditioning values (thorough: 4 input variants, 3 of them seeded random); non-trivial = the result differs from the "
+                "called twice with different conditioning values, with float and with integer-typed conditioning values "
+                "(thorough: 3 more seeded random input variants); plus every history of <= 4 steps (evaluate at g1/g2, "
+                "assign new coefficients to a level, fit the innermost level) of a chained dependence function of depth "
+                "1 and 2, replayed on a real ConditionalDistribution (template family, dependent set and conditioning "
+                "value kind rotate with the history index); non-trivial = the result differs from the "
                 "template evaluated without the dependence values; distinct = distinct case tuple")
     ctx.trusted = ["TLC 1.8 evaluating spec/ParamRoutingOps.tla / Trace_C08.tla",
                    "harness/c08.py reference arithmetic of the dependence callables (+, *, / only; IEEE exact)",
@@ -283,11 +407,19 @@ def run(ctx):
     ctx.model_check("ParamRouting", "MC_ParamRouting_cond_mut_vec.cfg", expect_violation="VectorisedEqualsPointwise")
     ctx.model_check("ParamRouting", "MC_ParamRouting_cond_mut_drop.cfg",
                     expect_violation="CondEqualsTemplateAtValues")
+    for d in (1, 2):
+        ctx.model_check("ParamRoutingMemo", f"MC_ParamRoutingMemo_d{d}.cfg", must_cover=("Step",))
+    ctx.model_check("ParamRoutingMemo", "MC_ParamRoutingMemo_mut.cfg",
+                    expect_violation="CondEqualsTemplateAlongHistory")
     cases = ctx.generate("ParamRouting", "Gen_ParamRouting_cond.cfg")
-    cases, recs, failing = judge(ctx, vc, cases, reps=ctx.pick(1, 4))
+    hists = (ctx.generate("ParamRoutingMemo", "Gen_ParamRoutingMemo_d1.cfg")
+             + ctx.generate("ParamRoutingMemo", "Gen_ParamRoutingMemo_d2.cfg"))
+    cases, recs, failing = judge(ctx, vc, cases, variants=ctx.pick((0, -1), (0, -1, 1, 2, 3)), hists=hists)
+    ctx.notes["chained_function_histories"] = len(hists)
     good = next((r for r in recs if r["id"] not in failing and r["shape"] == "vv" and r["chain"] == "chain2"), None)
     if good is not None:
-        selftest(ctx, good)
+        hr = condhist_record(vc, 1, dict(depth=2, steps=["E1", "S2", "E1"]), 1)
+        selftest(ctx, good, hr if hr["exc"] == "" and hr["tplrel"] == 0 else None)
     elif not ctx.violations:
         raise Machinery("no accepted record to run the self-test on")
     else:
@@ -303,4 +435,13 @@ def run(ctx):
 
 def replay(ctx, case):
     vc = import_virocon()
-    judge(ctx, vc, [case["case"]], summary=False)
+    c = case["case"]
+    if c.get("kind") == "condhist":
+        r = condhist_record(vc, 1, c["case"], c["index"])
+        failing = ctx.validate("Trace_C08", "Trace_C08.cfg", [r])
+        ctx.case(hist_key(c["case"], c["index"]))
+        for clause in failing.get(1, []):
+            ctx.violation(clause, hist_key(c["case"], c["index"]), f"tplrel={r['tplrel']} badstep={r['badstep']}",
+                          replay=c)
+        return
+    judge(ctx, vc, [c], summary=False, variants=(c.get("variant", 0),))
